@@ -131,3 +131,9 @@ Example C17_any_input_example :
   strip_nulls_w c17_corrupt [7; 8] = Panic /\ strip_nulls_w c17_corrupt [] = Panic /\
   delete_by_name_w (firstn 3 c17_corrupt) [98] [7; 8] = Err EOther.
 Proof. vm_compute. repeat split; try reflexivity. discriminate. Qed.
+
+(* ---- Value::write_to_vec itself (ser.rs): the caller's buffer is kept and exactly the document's encoding is appended *)
+From JB Require Import CodecProofs.
+Theorem C17_write_to_vec_appends : forall v, wf_size v = true -> forall buf, write_to_vec buf v = buf ++ enc v.
+Proof. exact write_to_vec_spec. Qed.
+Print Assumptions C17_write_to_vec_appends.
